@@ -23,7 +23,7 @@ import math
 from fractions import Fraction as Fr
 
 from vcheck import Ctx, f2hex, hex2f, q2s
-from frame.allocation.allocation import create_initial_allocation
+from frame.allocation.allocation import Allocation, create_initial_allocation
 from frame.die.die import Die
 from frame.geometry.geometry import Rectangle
 from frame.netlist.netlist import Netlist
@@ -205,6 +205,10 @@ def gen_doc(rng, mode: str) -> dict:
     if rng.random() < 0.35:
         doc["split"] = [rng.choice([1.5, 2.0, 3.0, 1.42]), rng.randint(1, 8)]
     doc["iz"] = rng.random() < 0.45
+    # entry: the public function, or one level below — Allocation(descriptors).initial_allocation(netlist) on the
+    # die's cells given as YAML vectors (not flagged yet) with refinement depths (i * k) % 4
+    doc["entry"] = "cia" if rng.random() < 0.65 else "ia"
+    doc["depth_k"] = rng.choice([0, 1, 1, 3]) if doc["entry"] == "ia" else 0
     return doc
 
 
@@ -265,13 +269,24 @@ def run_impl(doc) -> dict:
         t += f" {len(vals)}" + "".join(" " + sc(v, mode) for v in vals)
         t += " 0" if m.center is None else f" 1 {sc(m.center.x, mode)} {sc(m.center.y, mode)}"
         mods.append(t)
-    res["request"] = (f"{mode} cia {sc(epsA, mode)} {int(doc['iz'])} {len(refinable)}" +
-                      "".join(" " + _rect_tok(r, mode) for r in refinable) + f" {len(fixed)}" +
-                      "".join(" " + _rect_tok(r, mode) for r in fixed) + f" {len(mods)}" + "".join(" " + t for t in mods))
-    res["ncells_in"] = len(refinable) + len(fixed)
+    entry = doc.get("entry", "cia")
+    depths = [(i * doc.get("depth_k", 0)) % 4 for i in range(len(refinable) + len(fixed))]
+    res["cells_in"] = [[[r.center.x, r.center.y, r.shape.w, r.shape.h], d] for r, d in zip(refinable + fixed, depths)]
+    if entry == "cia":
+        res["request"] = (f"{mode} cia {sc(epsA, mode)} {int(doc['iz'])} {len(refinable)}" +
+                          "".join(" " + _rect_tok(r, mode) for r in refinable) + f" {len(fixed)}" +
+                          "".join(" " + _rect_tok(r, mode) for r in fixed) + f" {len(mods)}" + "".join(" " + t for t in mods))
+    else:
+        descs = [(tuple(r.vector_spec), {}, d) for r, d in zip(refinable + fixed, depths)]
+        res["request"] = (f"{mode} ia {sc(epsA, mode)} {int(doc['iz'])} {len(descs)}" + "".join(
+            f" {sc(v[0], mode)} {sc(v[1], mode)} {sc(v[2], mode)} {sc(v[3], mode)} {v[4]} 0 0 {d}" for v, _, d in descs) +
+            f" {len(mods)}" + "".join(" " + t for t in mods))
     res["stage"] = "call"
     try:
-        alloc = create_initial_allocation(die, doc["iz"])
+        if entry == "cia":
+            alloc = create_initial_allocation(die, doc["iz"])
+        else:
+            alloc = Allocation(descs).initial_allocation(netlist, doc["iz"])
     except Exception as ex:
         Rectangle.undefine_epsilon()
         cls = type(ex).__name__
@@ -474,6 +489,8 @@ def spec(ctx: Ctx, doc, impl) -> list:
                 fail("square_def", {"module": m["name"], "got": g, "want": [float(v) for v in want[0]]})
 
     cells = impl["cells"]
+    entry = doc.get("entry", "cia")
+    depth_in = {tuple(r): d for r, d in impl["cells_in"]}
     nonfixed = [c for c in cells if not c["fixed"]]
     fcells = [c for c in cells if c["fixed"]]
     # cells_cover: the non-fixed cells tile the free region (inside the die, disjoint from each other / blockages /
@@ -505,8 +522,8 @@ def spec(ctx: Ctx, doc, impl) -> list:
             fail("fixed_full:exactly-one-owner", {"cell": c["r"], "alloc": c["alloc"]})
             continue
         n, v = next(iter(c["alloc"].items()))
-        if v != 1 or c["depth"] != 0:
-            fail("fixed_full:ratio-one", {"cell": c["r"], "alloc": c["alloc"], "depth": c["depth"]})
+        if v != 1 or c["depth"] != 0 or (entry == "cia" and not c["hard"]):
+            fail("fixed_full:ratio-one", {"cell": c["r"], "alloc": c["alloc"], "depth": c["depth"], "hard": c["hard"]})
         got_fixed.append((n, tuple(Fr(x) for x in c["r"])))
     if sorted(got_fixed) != want_fixed:
         fail("fixed_full:cells-are-the-fixed-rectangles", {"got": [[n, [float(x) for x in r]] for n, r in sorted(got_fixed)],
@@ -514,8 +531,8 @@ def spec(ctx: Ctx, doc, impl) -> list:
     # ratio_eq / listed_iff on the non-fixed cells
     for c in nonfixed:
         r = [Fr(v) for v in c["r"]]
-        if c["depth"] != 0:
-            fail("ratio_eq:depth", {"cell": c["r"], "depth": c["depth"]})
+        if c["depth"] != depth_in.get(tuple(c["r"])) or c["hard"]:
+            fail("cells_form:depth-kept", {"cell": c["r"], "depth": c["depth"], "given": depth_in.get(tuple(c["r"]))})
         for m in doc["modules"]:
             n = m["name"]
             x = sum(ov(r, s) for s in shapes[n]) / area(r)
@@ -567,11 +584,12 @@ def one(ctx: Ctx, doc, reqs, todo) -> None:
     todo.append((doc, impl, ratios))
     kinds = sorted({m["kind"] + ("" if m["rects"] else "-square") for m in doc["modules"]})
     nontrivial = impl["status"] == "ok" and any(0 < x < 1 for x in ratios)
-    ctx.case(doc["mode"], render(doc) + (doc["iz"], doc["split"]), nontrivial,
-             sample={"die": render(doc)[0], "netlist": render(doc)[1], "iz": doc["iz"], "split": doc["split"],
+    ctx.case(doc["mode"], render(doc) + (doc["iz"], doc["split"], doc.get("entry"), doc.get("depth_k")), nontrivial,
+             sample={"die": render(doc)[0], "netlist": render(doc)[1], "iz": doc["iz"], "split": doc["split"], "entry": doc.get("entry"),
                      "status": impl["status"], "cells": len(impl.get("cells", []))})
     ctx.count("status:" + impl["status"])
     ctx.count("include_zero:" + str(doc["iz"]))
+    ctx.count("entry:" + doc.get("entry", "cia"))
     ctx.count("refined-first:" + str(bool(doc["split"])))
     for k in kinds:
         ctx.count("has:" + k)
@@ -594,7 +612,7 @@ def run(ctx: Ctx) -> None:
                 "= die cells), 0-2 hard, 0-3 soft modules with rectangles (half-lattice, sticking out, abutting pieces tiling whole "
                 "cells, region tags), 0-3 rectangle-less soft modules (perfect-square areas on 'Q', multi-region areas, centres on / "
                 "beyond the border), 35% refined first with split_refinable_regions, include-zero 45%; documents the die/netlist "
-                "constructors reject are not cases; non-trivial = the call returned and some cell/module ratio is strictly "
+                "constructors reject are not cases; 65% through create_initial_allocation(die), 35% through Allocation(descriptors).initial_allocation(netlist) on the die's cells as unflagged YAML vectors with depths (i*k) % 4; non-trivial = the call returned and some cell/module ratio is strictly "
                 "between 0 and 1; distinct = distinct (die text, netlist text, include-zero, split)")
     ctx.assumptions += [
         "well-formed input: at least one refinable region; every rectangle-less soft module has a centre; module names are identifiers",
@@ -606,7 +624,7 @@ def run(ctx: Ctx) -> None:
     for d in seeds:
         if isinstance(d, dict) and "modules" in d:
             docs.append(d)
-    n = ctx.n(1300, 30000)
+    n = ctx.n(2000, 40000)
     for i in range(n):
         docs.append(gen_doc(ctx.rng, "Q" if i % 2 == 0 else "F"))
     reqs, todo = [], []
